@@ -28,6 +28,7 @@ func init() {
 func runC14(c *Ctx) {
 	c.rule("O1", "retry.Do is always bounded (Attempts) and context-bound (Context from a context parameter); RetryIf also passes RetryIf(cond) and LastErrorOnly(true), bounds attempts by RetryMax, runs fn once when disabled and converts context errors", 5)
 	c.rule("O12", "the function RetryIf hands to retry.Do returns the operation's own error unchanged: the caller's retry condition is asked about the error the attempt produced", 1)
+	c.contextConverterGoesByIdentity("O13", "RetryIf returns what this function makes of the last error: an attempt that failed with an error without a description (errors.New(\"\")) would make RetryIf / RetryOnError return nil although no attempt succeeded")
 	c.rule("O6", "every attempt tests the context before it calls the operation (retry-go only looks at the context while it waits between attempts)", 1)
 	c.rule("O7", "a value of a header is only taken from the list the header map holds where that list was found non-empty (or through Header.Get)", 1)
 	c.rule("O8", "the Retry-After header is looked at only on paths where the status code was found equal to 429 or to 503 (equality tests only, both codes present): an ordering test would let other statuses through", 1)
